@@ -15,14 +15,14 @@ CLAUSES = ['P:RestoreOk', 'P:RestoreSelect', 'P:RestoreNothingElse', 'P:ListOk',
            'P:ConfinedNamed']
 
 SREGEX = [None, '^[0-7]', '[89a-f]$', '^$', 'a|b', '00', '.']
-FREGEX = [None, r'\.bin$', '/d/', 'f1|g2', '^/nomatch', r'^/', 'g', r'f\d\.bin$', '/src/d/g0']
+FREGEX = [None, r'\.bin$', '/d/', 'f1|g2', '^/nomatch', r'^/', 'g', r'f\d\.bin$', '/src/d/g0', r'F1\.BIN$', '/D/', 'G']
 
 
 def evolving_history(sess, steps):
     from replicat.utils import FileListColumn as FC, SnapshotListColumn as SC
     r = sess.rng
     content = repodrv.Content(r, nblocks=8)
-    names = ['f0.bin', 'f1.bin', 'f2.bin', 'd/g0.dat', 'd/g1.dat', 'd/e/h0.dat']
+    names = ['f0.bin', 'f1.bin', 'f2.bin', 'd/g0.dat', 'd/g1.dat', 'd/e/h0.dat', 'F1.BIN', 'D/G0.dat']      # two pairs differ in case only
     live = {}
     desc = []
     for step in range(steps):
